@@ -14,7 +14,6 @@ import (
 	"log"
 	"log/slog"
 	"net"
-	"strings"
 	"sync"
 	"testing"
 
@@ -33,13 +32,12 @@ import (
 // error), so that the run can go on; the violation is "this request would never have been answered".
 type c11LoopGuard struct {
 	metadata.Store
-	mu       sync.Mutex
-	exists   int    // CreateTopic -> ErrTopicExists since the last reset
-	unknown  int    // NextOffset -> ErrUnknownTopic since the last reset
-	lastNext string // args of the last NextOffset that failed
-	lastCT   string
-	sameArgs bool
-	tripped  []string
+	mu      sync.Mutex
+	lastNO  string // args of the last NextOffset that answered "unknown"
+	runNO   int    // how many times in a row with those args
+	lastCT  string // name of the last CreateTopic that answered "exists"
+	runCT   int
+	tripped []string
 }
 
 const c11LoopLimit = 2000
@@ -48,7 +46,7 @@ var errC11LoopCut = errors.New("verif: livelock cut by the harness")
 
 func (g *c11LoopGuard) reset() {
 	g.mu.Lock()
-	g.exists, g.unknown, g.lastNext, g.lastCT, g.sameArgs = 0, 0, "", "", true
+	g.lastNO, g.runNO, g.lastCT, g.runCT = "", 0, "", 0
 	g.mu.Unlock()
 }
 
@@ -62,41 +60,42 @@ func (g *c11LoopGuard) takeTrips() []string {
 
 func (g *c11LoopGuard) NextOffset(ctx context.Context, topic string, partition int32) (int64, error) {
 	off, err := g.Store.NextOffset(ctx, topic, partition)
+	g.mu.Lock()
 	if errors.Is(err, metadata.ErrUnknownTopic) {
-		g.mu.Lock()
 		key := fmt.Sprintf("%q/%d", topic, partition)
-		if g.lastNext != "" && g.lastNext != key {
-			g.sameArgs = false
+		if key == g.lastNO {
+			g.runNO++
+		} else {
+			g.lastNO, g.runNO = key, 1
 		}
-		g.lastNext = key
-		g.unknown++
-		g.mu.Unlock()
+	} else {
+		g.lastNO, g.runNO = "", 0
 	}
+	g.mu.Unlock()
 	return off, err
 }
 
 func (g *c11LoopGuard) CreateTopic(ctx context.Context, spec metadata.TopicSpec) (*protocol.MetadataTopic, error) {
 	t, err := g.Store.CreateTopic(ctx, spec)
+	cut := false
+	g.mu.Lock()
 	if errors.Is(err, metadata.ErrTopicExists) {
-		g.mu.Lock()
-		if g.lastCT != "" && g.lastCT != spec.Name {
-			g.sameArgs = false
+		if spec.Name == g.lastCT {
+			g.runCT++
+		} else {
+			g.lastCT, g.runCT = spec.Name, 1
 		}
-		g.lastCT = spec.Name
-		g.exists++
-		cut := g.exists >= c11LoopLimit && g.unknown >= c11LoopLimit
-		if cut {
-			pattern := "store_call_storm"
-			if g.sameArgs {
-				pattern = "missing_partition_of_existing_topic"
-			}
-			g.tripped = append(g.tripped, fmt.Sprintf("%s: %d x [NextOffset(%s) -> unknown topic/partition, CreateTopic(%q) -> topic exists] within one request", pattern, g.exists, g.lastNext, spec.Name))
-			g.exists, g.unknown = 0, 0
+		if g.runCT >= c11LoopLimit && g.runNO >= c11LoopLimit {
+			cut = true
+			g.tripped = append(g.tripped, fmt.Sprintf("%d consecutive identical answer pairs [NextOffset(%s) -> unknown topic/partition, CreateTopic(%q) -> topic exists] within one request", g.runCT, g.lastNO, spec.Name))
+			g.lastNO, g.runNO, g.lastCT, g.runCT = "", 0, "", 0
 		}
-		g.mu.Unlock()
-		if cut {
-			return nil, errC11LoopCut
-		}
+	} else {
+		g.lastCT, g.runCT = "", 0
+	}
+	g.mu.Unlock()
+	if cut {
+		return nil, errC11LoopCut
 	}
 	return t, err
 }
@@ -121,7 +120,7 @@ func c11StartBroker(t *testing.T, wrap func(metadata.Store) metadata.Store) (str
 	addr, port := c11FreeAddr(t)
 	logger := slog.New(slog.NewTextHandler(io.Discard, &slog.HandlerOptions{}))
 	info := protocol.MetadataBroker{NodeID: 1, Host: "127.0.0.1", Port: int32(port)}
-	guard := &c11LoopGuard{Store: metadata.NewInMemoryStore(metadataForBroker(info)), sameArgs: true}
+	guard := &c11LoopGuard{Store: metadata.NewInMemoryStore(metadataForBroker(info))}
 	var store metadata.Store = guard
 	if wrap != nil {
 		store = wrap(store)
@@ -165,16 +164,12 @@ func TestVerifC11Broker(t *testing.T) {
 			after: func(cs c11Case) {
 				for _, trip := range guard.takeTrips() {
 					cs.Detail = trip
-					class := "no_reply_handler_livelock"
-					if strings.HasPrefix(trip, "missing_partition_of_existing_topic") {
-						class = "no_reply_livelock_missing_partition"
-					}
 					r.Count("handler_livelocks_cut", 1)
-					r.Violation(class, fmt.Sprintf("%s: %s v%d (advertised=%v) would never be answered: the handler loops forever (%s)", cs.Target, cs.API, cs.Version, cs.Advertised, trip), cs)
+					r.Violation("no_reply_livelock_missing_partition", fmt.Sprintf("%s: %s v%d (advertised=%v) would never be answered: the handler loops forever (%s)", cs.Target, cs.API, cs.Version, cs.Advertised, trip), cs)
 				}
 			},
 		}
-		c11RunMatrix(r, cfg.name, addr, i*1000000, true, []float64{1, 0.4, 0.4}[i], false, hooks)
+		c11RunMatrix(r, c11Matrix{target: cfg.name, addr: addr, salt: i * 1000000, requireReply: true, scale: []float64{1, 0.4, 0.4}[i], hooks: hooks})
 		stop()
 		for k := range cfg.env {
 			t.Setenv(k, "")
